@@ -1,12 +1,13 @@
 #!/bin/sh
 # seedmatrix.sh REPO SEEDS... — for every seeded change under seeded/, apply it to the goverter tree REPO (a scratch copy),
 # run the quick check of its property with each of the given PRNG seeds, and print one line per (change, seed):
-# how many VIOLATION lines were raised.  REPO must be clean; it is restored after every run.
+# how many VIOLATION lines were raised.  REPO must be clean; it is restored after every run.  ONLY="id id ..." restricts the run.
 cd "$(dirname "$0")/.." || exit 2
 REPO=$1; shift
 export VERIF_REPO=$REPO
 for d in seeded/*/; do
   id=$(basename $d); prop=$(echo $id | cut -c1-3)
+  if [ -n "$ONLY" ]; then case " $ONLY " in *" $id "*) ;; *) continue ;; esac; fi
   git -C $REPO apply "$(pwd)/$d/patch.diff" 2>/dev/null || { echo "$id: patch does not apply"; continue; }
   for s in "$@"; do
     n=$(VERIF_SEED=$s ./check $prop 2>&1 | grep -c '^VIOLATION')
